@@ -31,7 +31,7 @@ def shards(tier, seed):
            {"name": "register", "kind": "register"}]
     n = 12 if tier == "quick" else 32
     for i in range(n):
-        out.append({"name": f"random{i}", "kind": "random", "n": 2500 if tier == "quick" else 25000})
+        out.append({"name": f"random{i}", "kind": "random", "n": 8000 if tier == "quick" else 25000})
     for i in range(2 if tier == "quick" else 8):
         out.append({"name": f"big{i}", "kind": "big", "n": 25 if tier == "quick" else 200})
     for i in range(2 if tier == "quick" else 6):
